@@ -12,7 +12,7 @@ META = {
         "text": "Kernel-checked: for every schema type, every input byte string and every frame size, ReadResponse/decode of the bounded decoder returns a message or an error - no panic outcome and no allocation request larger than the bytes left in the frame (decode_total_bounded, readResponse_total_bounded, readRequest_total_bounded, readResponse_total_with_records, readResponse_consumes_frame_with_records), instantiated at the decoder configuration extracted from the current source. Tied to the code by the extracted guard facts and by decoding ~20k (quick) mutated frames of every response type x version in a child process (ulimit -v, GOMEMLIMIT, timeout) and comparing the outcome class and measured allocation with the model.",
         "design_ref": "DESIGN.md §7 C20",
     },
-    "level_note": "Trusted: Lean kernel + standard axioms; the syntactic guard extractors (go/ast patterns G1-G5, 7 record-set guard patterns); the child-process harness. The bound is in terms of the bytes ANNOUNCED by the frame size and not yet consumed (= bytes received when the frame is complete); a frame whose size prefix itself lies can still request up to that size. Decompression and CRC are parameters of the record-set model (any function): what a codec allocates while inflating is C16's. CPU time is not modelled (sticky-error short-circuit); hangs are observed by the harness only.",
+    "level_note": "Trusted: Lean kernel + standard axioms; the syntactic guard extractors (go/ast patterns G1-G5, 7 record-set guard patterns); the child-process harness. The model's bound is in terms of the bytes ANNOUNCED by the frame size and not yet consumed (= bytes received when the frame is complete); for a frame whose size prefix itself lies, the extracted fact G8 (arrays are allocated as their elements arrive, theorem source_arrays_grow; fix f565841 of C20-D30) and the lying-size-and-count frames of the check cover the gap - a model of allocation against RECEIVED bytes is not stated. Decompression and CRC are parameters of the record-set model (any function): what a codec allocates while inflating is C16's. CPU time is not modelled (sticky-error short-circuit); hangs are observed by the harness only.",
 }
 
 MODULE = "KafkaVerif.Props.C20"
